@@ -282,6 +282,18 @@ def run(ctx):
     ctx.attempt("R11-COVER", fz, "Zooming.make_active", "activation", check_make_active, ctx)
     from . import c15
     c15.import_taint(ctx, ["Zooming"], "R11-TIME", "the arm index and the refinement rule are functions of the reward history alone")
+    from . import c14
+    c14.import_iso(ctx, ["Zooming", "point"], "R11-ISO", "thresholds, arms and statistics belong to one Zooming object")
+    # the three arm maps are keyed by the arm OBJECTS: the arm class must keep identity hashing / equality (a value-based
+    # __eq__/__hash__ makes two distinct arms collide in active_points / pulled_times / average_rewards)
+    pc = model.classes.get("point")
+    if pc is not None:
+        bad = [m for m in ("__eq__", "__hash__", "__ne__", "__lt__", "__le__", "__gt__", "__ge__") if m in pc.methods]
+        slots = [st for st in pc.node.body if isinstance(st, ast.Assign) and any(isinstance(t, ast.Name) and t.id == "__hash__" for t in st.targets)]
+        ctx.ob("R11-KEY", not bad and not slots, pc.file, "point", "arms are dictionary keys by identity",
+               "point defines no comparison / hash method" if not bad and not slots else
+               "point defines %s: two different arms can compare equal and overwrite each other's entries in the arm maps" % (bad or ["__hash__ = .."]),
+               pc.node.lineno)
     from . import c03
     tmp = Ctx(ctx.prop, ctx.tier, ctx.seed, model)
     c03.check_sites(tmp)
